@@ -297,7 +297,7 @@ func build(tier string) ([]runner.Instance, time.Duration) {
 	bound, budget := 1, 80*time.Second
 	maxN, maxW := 2, 2
 	if tier == "thorough" {
-		bound, budget, maxN = 3, 14*time.Minute, 3
+		bound, budget, maxN = 2, 14*time.Minute, 3
 	}
 	var out []runner.Instance
 	add := func(c construct, n, k, w int, stop string, blocking bool, b int) {
